@@ -25,13 +25,13 @@ func (m *consumptions) SendToAll(p Pack, keyframe bool) {
 
 func (m *consumptions) RemoveAndCloseAll() {
 	m.Range(func(key, value interface{}) bool {
-		c := value.(*consumption)
-		m.Delete(key)
-		c.Close()
+		// 只有真正移除该项的一方才递减计数并关闭，避免与 Remove 竞争时计数为负
+		if ci, ok := m.LoadAndDelete(key); ok {
+			atomic.AddInt32(&m.count, -1)
+			ci.(*consumption).Close()
+		}
 		return true
 	})
-
-	atomic.StoreInt32(&m.count, 0)
 }
 
 func (m *consumptions) Add(c *consumption) {
@@ -40,9 +40,8 @@ func (m *consumptions) Add(c *consumption) {
 }
 
 func (m *consumptions) Remove(cid CID) *consumption {
-	ci, ok := m.Load(cid)
+	ci, ok := m.LoadAndDelete(cid)
 	if ok {
-		m.Delete(cid)
 		atomic.AddInt32(&m.count, -1)
 		return ci.(*consumption)
 	}
